@@ -13,7 +13,7 @@ RULE = ("(a) extracted model vs implementation on random grammars over every mod
         "agree with the string at loc; non-trivial = input of length >= 1 on a grammar of >= 2 nodes")
 TRUSTED = pcommon.TRUSTED_PARSE + [
     "the location bound 0 <= loc <= len+1 is checked on the implementation by the oracle, not proved (GoToColumn violates it: F-06)",
-    "classes outside the model (Regex, QuotedString, CloseMatch, Each, Dict, IndentedBlock, helpers) are exercised by the oracle only"]
+    "classes outside the model (Regex, QuotedString, CloseMatch, Dict, IndentedBlock, helpers) are exercised by the oracle only"]
 
 BOUNDARY = ["", " ", "\n", "\t", "a", "ab", " a", "a ", "a\n", "\na", "a\tb", "\t\ta", "é", "aé", "a b", "ab\n\nab", "(", "(a", "a,",
             "a,b", ",", "  ", "\r\n", "a\r\nb", "ab ab ab", "aaaa", "'a", "\"a\"", "1", "12 3", "-1.5e3", "0x1F", "a1_b"]
